@@ -1,18 +1,18 @@
-\* two models, two names, two locations, two values: all histories of 4 operations
+\* one model, two names, one csv location, two pandas values, modelx objects A and A.c (B and B.c as relative copies), space deletion: the COMPLETE reachable state space (histories of any length)
 CONSTANTS
-  Models = {"M1", "M2"}
+  Models = {"M1"}
   BaseInit = {"M1"}
   Names = {"x", "y"}
-  CsvLocs = {"p.csv", "q.csv"}
+  CsvLocs = {"p.csv"}
   ModLocs = {}
   PVals = {1, 2}
   MVals = {}
-  OVals = {}
-  WithDelSpace = FALSE
+  OVals = {101, 102}
+  WithDelSpace = TRUE
   OpenFindings = {}
-  MaxOps = 4
-  Dump = FALSE
-VIEW View
+  MaxOps = 99
+  Dump = TRUE
+VIEW ViewU
 INIT Init
 NEXT Next
 INVARIANT Inv_C18_SpecsEqBoundValues
